@@ -96,14 +96,23 @@ func (m *vStubRunner) Run(t *task.Task) error {
 	l.inflight++
 	verifEvent("Run " + st.name + " begins")
 	verifYield() // the task takes time
-	outcome := verifChoose("outcome."+st.name, 2)
+	outcome := 0
+	if !l.cancelDelivered {
+		outcome = verifChoose("outcome."+st.name, 2)
+	}
 	res := error(nil)
-	if l.cancelDelivered {
+	reaction := 0
+	if l.cancelDelivered && verifBound("reactions", 0) == 1 {
+		// told to stop while running: the command dies of the interrupt (0), or handles it and exits
+		// with a status of its own (1), or finishes regularly (2)
+		reaction = verifChoose("reaction-to-stop."+st.name, 3)
+	}
+	if l.cancelDelivered && reaction == 0 {
 		// told to stop while running
 		verifReach("run.canceled-in-flight")
 		st.canceled = true
 		res = context.Canceled
-	} else if outcome == 1 {
+	} else if (l.cancelDelivered && reaction == 1) || (!l.cancelDelivered && outcome == 1) {
 		st.failed = true
 		res = vRunErr
 		if !st.allowFail {
